@@ -210,6 +210,14 @@ func derivesFrom(v ssa.Value, target func(ssa.Value) bool) bool {
 							}
 						}
 					}
+					// elements of a local array (varargs)
+					if ia, ok := ref.(*ssa.IndexAddr); ok && ia.Referrers() != nil {
+						for _, r2 := range *ia.Referrers() {
+							if st, ok := r2.(*ssa.Store); ok && st.Addr == ssa.Value(ia) && walk(st.Val, d+1) {
+								return true
+							}
+						}
+					}
 				}
 			}
 		case *ssa.FieldAddr:
